@@ -16,6 +16,9 @@ SAN_FLAGS = {
     # one sanitizer family per build
     "asan": ["-O1", "-g", "-fno-omit-frame-pointer", "-fsanitize=address,undefined",
              "-fno-sanitize-recover=all"],
+    # what a user who sets CFLAGS for speed compiles (the Makefile has `CFLAGS ?=`): target-specific code paths (#ifdef __SSE4_2__,
+    # __AVX2__ ...) and the vectoriser are only alive here
+    "asan-native": ["-O2", "-march=native", "-g", "-fno-omit-frame-pointer", "-fsanitize=address,undefined", "-fno-sanitize-recover=all"],
     "tsan": ["-O1", "-g", "-fno-omit-frame-pointer", "-fsanitize=thread"],
     "plain-O0": ["-O0", "-g", "-fno-omit-frame-pointer"],
     "plain-O2": ["-O2", "-g", "-fno-omit-frame-pointer"],
